@@ -51,7 +51,7 @@ fn conv(from: usize, to: usize, clamped: bool, a: Arr) -> Arr {
 }
 
 #[derive(Debug, Clone, Serialize, Deserialize)]
-enum GOp {
+pub enum GOp {
     Read,
     Write(usize, [f32; 3]),
     /// then_into_color_mut (clamped = true) / then_into_color_unclamped_mut
@@ -60,18 +60,18 @@ enum GOp {
     SwitchKind,
 }
 #[derive(Debug, Clone, Copy, Serialize, Deserialize, PartialEq)]
-enum Terminal {
+pub enum Terminal {
     Restore,
     Drop,
     Forget,
 }
 #[derive(Debug, Clone, Serialize, Deserialize)]
-struct Program {
-    orig: usize,
-    first: (usize, bool),
-    buf: Vec<[f32; 3]>,
-    ops: Vec<GOp>,
-    terminal: Terminal,
+pub struct Program {
+    pub orig: usize,
+    pub first: (usize, bool),
+    pub buf: Vec<[f32; 3]>,
+    pub ops: Vec<GOp>,
+    pub terminal: Terminal,
 }
 
 struct Model {
@@ -186,7 +186,7 @@ impl_row!(A2);
 impl_row!(A3);
 impl_row!(A4);
 
-fn run_program(p: &Program, obs: &mut Obs) -> PropResult {
+pub fn run_program(p: &Program, obs: &mut Obs) -> PropResult {
     let depth = 1 + p.ops.iter().filter(|o| matches!(o, GOp::Then(..))).count();
     obs.class(match depth { 1 => "chain depth 1", 2 => "chain depth 2", 3 => "chain depth 3", _ => "chain depth >= 4" });
     obs.class(match p.terminal { Terminal::Restore => "terminal: restore", Terminal::Drop => "terminal: drop", Terminal::Forget => "terminal: forget" });
@@ -239,14 +239,14 @@ fn run_program(p: &Program, obs: &mut Obs) -> PropResult {
 
 // ---------------- owned containers, single values, chains without guards ----------------
 #[derive(Debug, Clone, Serialize, Deserialize)]
-struct OwnedCase {
-    from: usize,
-    chain: Vec<(usize, bool)>,
-    buf: Vec<[f32; 3]>,
-    extra_cap: usize,
+pub struct OwnedCase {
+    pub from: usize,
+    pub chain: Vec<(usize, bool)>,
+    pub buf: Vec<[f32; 3]>,
+    pub extra_cap: usize,
 }
 
-fn owned_point(c: &OwnedCase, obs: &mut Obs) -> PropResult {
+pub fn owned_point(c: &OwnedCase, obs: &mut Obs) -> PropResult {
     obs.nontrivial_if(c.buf.len() >= 1 && c.chain.len() >= 1 && c.extra_cap > 0);
     obs.class(if c.buf.is_empty() && c.extra_cap > 0 { "empty vec with capacity" } else { "other" });
     // ---- Vec: a whole chain re-uses the one allocation ----
